@@ -56,7 +56,7 @@ SESC = "\" (%x22 / "/" / "\" / "b" / "f" / "n" / "r" / "t" / "u" hexchar)
 hexchar = "{" 1*HEXDIG "}" / HEX4
 HEX4 = HEXDIG HEXDIG HEXDIG HEXDIG
 bytes = [bsqual] %x27 *BCHAR %x27 / "h" %x22 *HQCHAR %x22
-BCHAR = %x20-26 / %x28-5B / %x5D-10FFFD / "\" %x20-10FFFD / CRLF / %x09
+BCHAR = %x20-26 / %x28-5B / %x5D-10FFFD / "\" (%x20-10FFFD / %x09 / CRLF) / CRLF / %x09
 HQCHAR = %x20-21 / %x23-10FFFD / CRLF / %x09
 bsqual = "h" / "b64"
 id = EALPHA *(*("-" / ".") (EALPHA / DIGIT))
@@ -533,6 +533,9 @@ fn sequences(l: usize, f: &mut dyn FnMut(&str)) {
 }
 
 fn semantic_rejection(msg: &str) -> bool {
+  if msg.contains("Invalid member key") {
+    return false; // a statement about which key forms exist: grammar, not content
+  }
   // rejections that are not statements about the grammar: duplicate rules, invalid literal content, numeric range
   ["already defined", "missing definition", "invalid", "Invalid", "overflow", "out of range", "too large", "escape", "base64", "hex", "utf-8", "UTF-8", "not a valid", "unknown control"].iter().any(|k| msg.contains(k))
 }
@@ -579,6 +582,7 @@ pub const F_SOCKETKIND: &str = "C03-socket-prefix-tied-to-the-kind-of-rule";
 pub const F_RULEENTRY: &str = "C03-rule-level-group-entry-with-key-or-occurrence-rejected";
 pub const F_PARENFIRST: &str = "C03-parenthesised-type-first-in-a-group-entry-rejected";
 pub const F_MIRROR: &str = "C03-ast-does-not-mirror-the-derivation";
+pub const F_BSESC: &str = "C03-escaped-quote-in-a-byte-string-literal-rejected";
 pub const F_HEADTYPE: &str = "C03-type-valued-head-number-accepted-for-every-major-type";
 pub const F_TRAILS: &str = "C03-blank-accepted-before-the-closing-angle-of-a-head-number";
 
@@ -648,7 +652,9 @@ fn viol(kind: &str, text: &str, observed: String, expected: &str) -> Viol {
   // recorded findings: a coarse sort by root cause, then the committed state list of that finding decides
   let id = match kind {
     "derivable-but-rejected" => {
-      if odd_identifier(text) {
+      if text.contains("\\'") {
+        Some(F_BSESC)
+      } else if odd_identifier(text) {
         Some(F_DOLLAR)
       } else if text.contains('$') {
         Some(F_SOCKETKIND)
@@ -689,6 +695,8 @@ fn mutants(tier: Tier) -> Vec<String> {
       "a = #\nb = #6.<a>(int)\nc = #(int)\nd = h\"01\"\n",
       "t = \"\\u{0000061}\" / \"\\u{00000000}\" / \"\\u{0}\" / \"\\u{10FFFF}\" / \"\\u0061\\ud83d\\ude00\"\n",
       "u = #8 / #9.1 / #0.0x10 / #7.25 / #7.<u>\n",
+      "w = 'it\\'s' / 'a\\\\b' / h'01'\n",
+      "v = { 'k': int, h'01': tstr, b64'AQ': 1, -1: 2, 1.5: 3, \"s\": 4 }\n",
     ]
     .iter()
     .map(|s| s.to_string()),
